@@ -416,14 +416,26 @@ def main():
             add("D.pem-trunc:" + fn, txt[:n])
     # concatenations of 1..5 public keys
     pubs = [X_PUB_PREFIX + p for (_, p) in xkeys[:3]] + [ED_PUB_PREFIX + p for (_, p) in edkeys[:3]]
+    # each of them alone (the job's oracle: a bundle parses to the keys its blocks parse to, in order, repeats included)
+    for k, d in enumerate(pubs):
+        add("D.single-of-many:%d" % k, pem(PUB, d))
     for n in range(1, 6):
         for sep in (b"", b"\n", b"\r\n\r\n", b"  \t", b"some text\n", b"-", b"-----"):
             for nl in (b"\r\n", b"\n"):
-                sel = [pubs[rnd.randrange(len(pubs))] for _ in range(n)]
-                add("D.many-%d" % n, sep.join(pem(PUB, d, 64, nl) for d in sel))
-        sel = [pubs[rnd.randrange(len(pubs))] for _ in range(n)]
+                idx = [rnd.randrange(len(pubs)) for _ in range(n)]
+                sel = [pubs[i] for i in idx]
+                # only blocks that simply follow each other (nothing or white space in between) are "concatenated PEM keys"
+                clean = sep.strip() == b""
+                add(("D.many-%d:sel=%s" if clean else "D.many-%d:dirty-sep=%s") % (n, ",".join(map(str, idx))), sep.join(pem(PUB, d, 64, nl) for d in sel))
+        idx = [rnd.randrange(len(pubs)) for _ in range(n)]
+        sel = [pubs[i] for i in idx]
         w = [1, 4, 63, 65, 76][n - 1]
-        add("D.many-%d-width" % n, b"".join(pem(PUB, d, w) for d in sel))
+        add("D.many-%d-width:sel=%s" % (n, ",".join(map(str, idx))), b"".join(pem(PUB, d, w) for d in sel))
+    # the same key several times in one bundle, and a key next to its other encoding
+    for idx in ([0, 0], [0, 1, 0], [3, 3, 3], [1, 4, 1, 4], [2, 2, 5, 2]):
+        add("D.many-repeats:sel=%s" % ",".join(map(str, idx)), b"".join(pem(PUB, pubs[i]) for i in idx))
+    for n in range(1, 6):
+        sel = [pubs[rnd.randrange(len(pubs))] for _ in range(n)]
         cat = b"".join(pem(PUB, d) for d in sel)
         add("D.many-%d-last-truncated" % n, cat[:-10])
         add("D.many-%d-last-no-end" % n, cat[: cat.rindex(b"-----END")])
@@ -509,6 +521,14 @@ def main():
     add("F.key-frames-as-pem:pub-der", X_PUB_PREFIX + special)
     add("F.key-frames-as-pem:pub-pem", pem(PUB, X_PUB_PREFIX + special))
     add("F.key-frames-as-pem:ed-priv-der", ED_PRIV_PREFIX + special)
+    # keys whose bytes merely CONTAIN a PEM begin marker (no complete frame): the PEM attempt fails and the DER fallback must parse them
+    for t, tailb in enumerate((bytes(range(1, 22)), b"PUBLIC KEY-----\nAAAA\n", bytes([0x80 + i for i in range(21)]))):
+        marked = b"-----BEGIN " + tailb
+        assert len(marked) == 32
+        add("F.key-has-begin-marker:priv-der-%d" % t, X_PRIV_PREFIX + marked)
+        add("F.key-has-begin-marker:priv-pem-%d" % t, pem(PRIV, X_PRIV_PREFIX + marked))
+        add("F.key-has-begin-marker:pub-der-%d" % t, X_PUB_PREFIX + marked)
+        add("F.key-has-begin-marker:pub-pem-%d" % t, pem(PUB, X_PUB_PREFIX + marked))
     add("F.empty", b"")
 
     with open(os.path.join(HERE, "corpus.txt"), "w") as f, \
